@@ -41,4 +41,31 @@ CHECKS = {
         technique='static guarded-by / lockset analysis on top of the lock-depth dataflow (clang JSON AST, CFG, call-graph summaries)',
         design_ref='3-B, 4-C13',
     ),
+    'C11': dict(
+        category='other',
+        text='Decides structural memory-safety clauses on all CFG paths of the 11 anchored units, not the absence of all UB over '
+             'all histories: M1 no memcpy/strcpy/strncpy between possibly overlapping ranges of one object (else memmove); M2 every '
+             'destruction site frees the node and all fields the code base treats as owned; M3 no use/double free of a freed path '
+             'within a function; M4 allocation size = copy length; H2 counted hash scans test the count before dereferencing. '
+             'Each is a necessary condition of the property (its violation is an overlap UB, leak, UAF, overflow or over-read '
+             'for some history) and together they cover the defect classes the property names.',
+        note='Access-path aliasing with one level of local alias resolution; callee effects via summaries; ownership derived from '
+             'what the code frees; array-cursor bases and caller-owned cursor objects are not nodes; static hash table region '
+             'bounds are decided under C07 (I4).',
+        technique='static ownership/typestate dataflow (path-sensitive, per-function CFG + summaries) and symbolic affine overlap check over clang JSON AST',
+        design_ref='3-C, 3-D, 4-C11',
+    ),
+    'C15': dict(
+        category='other',
+        text='Decides the fault-path discipline clauses, not state equality before/after a failed call: A1 every allocation result '
+             'is NULL-tested before dereference / hand-over to a dereferencing callee / being left in a must-be-non-NULL node field; '
+             'A2 no may-fail allocation after a counter increment within an operation; A3 every block allocated in a function is '
+             'freed, returned, stored or handed over on every path (failure paths included) and p = realloc(p, n) is rejected; '
+             'M2f destruction completeness on allocation-failure paths. Every allocation site of the nine container units is an '
+             'obligation, so each fault position the property quantifies over is a CFG branch that is covered.',
+        note='Path-sensitive value tracking with condition correlation; must-be-non-NULL fields are an explicit table; unknown '
+             'external callees are assumed to take ownership; string utilities outside the container units are out of scope.',
+        technique='static path-sensitive null-check / ownership dataflow over every allocation site (clang JSON AST, CFG, summaries)',
+        design_ref='3-C, 4-C15',
+    ),
 }
